@@ -25,7 +25,7 @@ def stepDetect (line : String) : String :=
 def stepReader (line : String) : String :=
   match (words line).mapM parseHex with
   | some chunks =>
-    match readAll Tea.Gen.extSequences Tea.Gen.seqLengths chunks [] [] with
+    match readAll Tea.Gen.extSequences Tea.Gen.seqLengths true chunks [] [] with
     | .ok (out, _) => " | ".intercalate (out.map fun o =>
         match o.msg with
         | some (.unknownCSI bs) => s!"unknowncsi len={bs.length}"   -- content aliases the read buffer in Go
